@@ -178,6 +178,58 @@ Proof.
   rewrite !max0r, !Nat.sub_0_r, orb_false_r. reflexivity.
 Qed.
 
+(** bounds that [try_sig] gives for each of its functions (any number of handlers) *)
+Lemma max_list_ge x l : In x l -> x <= max_list l.
+Proof.
+  unfold max_list. induction l as [|y t IH]; simpl; intros H; [contradiction|].
+  destruct H as [->|H]; [lia|]. specialize (IH H). lia.
+Qed.
+Lemma max_list_map_le {A} (f g : A -> nat) l :
+  (forall x, f x <= g x) -> max_list (map f l) <= max_list (map g l).
+Proof.
+  intros H. unfold max_list. induction l as [|y t IH]; simpl; [lia|]. specialize (H y). lia.
+Qed.
+Lemma in_combine_seq {A} (h : A) hs : forall k, In h hs ->
+  exists i, In (i, h) (combine (seq k (length hs)) hs) /\ k <= i.
+Proof.
+  induction hs as [|y t IH]; intros k H; [contradiction|].
+  cbn [length seq combine]. destruct H as [->|H].
+  - exists k. split; [left; reflexivity|lia].
+  - destruct (IH (S k) H) as (i & Hi & Hk). exists i. split; [right; exact Hi|lia].
+Qed.
+
+Lemma try_sig_bounds s0 hs :
+  let ts := fst (try_sig (s0 :: hs)) in
+  let any := snd (try_sig (s0 :: hs)) in
+  sua ts = 0 /\ suo ts = 0 /\
+  so s0 <= so ts /\ sa s0 + (so ts - so s0) <= sa ts /\
+  Forall (fun h => so h <= so ts /\ sa h + (so ts - so h) <= sa ts + 1 /\
+                   (sa h + (so ts - so h) = sa ts + 1 -> any = true)) hs.
+Proof.
+  unfold try_sig. cbn [fst snd sig2 sa so sua suo length seq combine tl].
+  set (mo := max_list (map so (s0 :: hs))).
+  set (ma0 := max_list (map (fun p : nat * sig => sa (snd p) - (if Nat.eqb (fst p) 0 then 0 else 1))
+                             ((0, s0) :: combine (seq 1 (length hs)) hs))).
+  set (ma := max_list (map (fun p : nat * sig => sa (snd p) + (mo - so (snd p)) - (if Nat.eqb (fst p) 0 then 0 else 1))
+                            ((0, s0) :: combine (seq 1 (length hs)) hs))).
+  assert (H0 : ma0 <= ma).
+  { apply max_list_map_le. intros [i x]. cbn [fst snd]. destruct (Nat.eqb i 0); lia. }
+  split; [reflexivity|]. split; [reflexivity|]. split; [|split].
+  - apply max_list_ge. left. reflexivity.
+  - assert (H : sa s0 + (mo - so s0) - 0 <= ma).
+    { apply max_list_ge. cbn [map fst snd Nat.eqb]. left. reflexivity. }
+    lia.
+  - rewrite Forall_forall. intros h Hh.
+    assert (Ho : so h <= mo) by (apply max_list_ge; cbn [map]; right; apply in_map; exact Hh).
+    destruct (in_combine_seq h hs 1 Hh) as (i & Hi & Hk).
+    assert (Ha : sa h + (mo - so h) - 1 <= ma).
+    { apply max_list_ge. cbn [map]. right.
+      apply (in_map (fun p : nat * sig => sa (snd p) + (mo - so (snd p)) - (if Nat.eqb (fst p) 0 then 0 else 1))) in Hi.
+      cbn [fst snd] in Hi. destruct (Nat.eqb_spec i 0) as [E|_]; [lia|]. exact Hi. }
+    split; [exact Ho|]. split; [lia|].
+    intros E. apply existsb_exists. exists h. split; [exact Hh|]. apply Nat.ltb_lt. lia.
+Qed.
+
 Lemma keep_bottom_frame (j l : list sval) k :
   k <= length l -> Exec.keep_bottom (length l - k) (j ++ skipn k l) = skipn k l.
 Proof.
